@@ -1,3 +1,3 @@
 (* ExtractDeps.v — every executable model file the OCaml driver is extracted from.
    No proofs are required here, so the model still runs when a proof breaks. *)
-From Agdb Require Export Bytes Utf8 Codec Auth.
+From Agdb Require Export Bytes Utf8 Codec Auth Paths.
